@@ -31,7 +31,7 @@ def run(chk, tier):
     chk.configs.add("default")
     from props import c09
     chk.guarded(c09.r_write_hundreds, P, tier)
-    for r in (r_helpers, r_specifiers, r_composites, r_pads, r_numeric_writers, r_wallclock, r_fraction_base, r_offset_base, r_write_n_cells, r_absint):
+    for r in (r_helpers, r_specifiers, r_composites, r_pads, r_numeric_writers, r_wallclock, r_fraction_base, r_offset_base, r_write_n_cells, r_results_consumed, r_offset_writer_map, r_two_digit_writer_map, r_absint):
         chk.guarded(r, P, tier)
     chk.assume("the rendered text for each value (week-number formulas, 12-hour clock values, name lookup, offset rounding) is not decided; the documented table is specs/tables/strftime_spec.py")
     return {
@@ -173,6 +173,7 @@ def r_numeric_writers(chk, P, tier):
         del log[:]
         try:
             fo._memo.clear()
+            fo._eff_done.clear()
             fo.call(fn, [("ref", ("const", "w")), ("const", y), pad0])
             got = [(n, tuple(show(a) for a in args[1:])) for n, args in log]
         except Unknown as e:
@@ -290,3 +291,239 @@ def r_write_n_cells(chk, P, tier):
     for sg in (True, False):
         row = [tpl[(sg, pd)] for pd in pads]
         chk.expect(len(set(row)) == 3, "paddings differ (always_sign=%s)" % sg, "write_n uses the same template for two paddings (always_sign=%s): %s" % (sg, row), loc=loc)
+
+
+def r_results_consumed(chk, P, tier):
+    """No formatting error is dropped: in the writers every call that returns fmt::Result has its result consumed - handed to `?` (Try::branch), matched on, or returned - on
+    every way from the call to the next redefinition of the holding local or to the function's exit (a loop that overwrites a `result` variable per item and returns only the
+    last one loses the error of every earlier item)"""
+    from core import operands_of_block, succs
+    chk.rule("ERR.results_consumed", "in write_to / format_numeric / format_fixed / write_rfc3339 / write_rfc2822 / OffsetFormat::format every fmt::Result is consumed before it is overwritten or the function ends", floor=40)
+    fns = ["format::formatting::DelayedFormat::<I>::write_to", "format::formatting::DelayedFormat::<I>::format_numeric", "format::formatting::DelayedFormat::<I>::format_fixed",
+           "format::formatting::write_rfc3339", "format::formatting::write_rfc2822", "format::formatting::<impl format::OffsetFormat>::format"]
+    fns += sorted(n for n in P.fns if n.startswith("format::formatting::DelayedFormat::<I>::format_numeric::") and "{" not in n and P.has(n))
+    total = 0
+    for fn in fns:
+        if not P.has(fn):
+            raise AnchorLost(fn + " not found")
+        mir = P.fn(fn)["mir"]
+        blocks = mir["blocks"]
+
+        def is_res(l):
+            return P.ty_s(mir["locals"][l]) == "std::result::Result<(), std::fmt::Error>"
+
+        def uses_of(b, l, after=-1):
+            """(consumed, redefined, moved_to) looking at statements after index `after` and the terminator of block b"""
+            blk = blocks[b]
+            for i, st in enumerate(blk["s"]):
+                if i <= after or st["k"] != "assign":
+                    continue
+                rv = st["rv"]
+                reads = [o for o in ([rv.get("x")] if rv.get("x") else []) + rv.get("fields", []) + [rv.get("l"), rv.get("r")] if o]
+                if rv["k"] == "discr" and rv.get("pl", {}).get("l") == l:
+                    return ("consumed", None)
+                for o in reads:
+                    if isinstance(o, dict) and o.get("k") in ("copy", "move") and o["pl"]["l"] == l:
+                        if st["pl"]["l"] == 0:
+                            return ("consumed", None)
+                        if rv["k"] == "use" and not o["pl"]["p"] and not st["pl"]["p"]:
+                            return ("moved", (st["pl"]["l"], i))
+                        return ("consumed", None)
+                if st["pl"]["l"] == l and not st["pl"]["p"]:
+                    return ("redefined", None)
+            t = blk["t"]
+            if t["k"] == "call":
+                for a in t["args"]:
+                    if a.get("k") in ("copy", "move") and a["pl"]["l"] == l:
+                        return ("consumed", None)
+                if t.get("dest") and t["dest"]["l"] == l and not t["dest"]["p"]:
+                    return ("redefined", None)
+            if t["k"] == "switch" and t["discr"].get("k") in ("copy", "move") and t["discr"]["pl"]["l"] == l:
+                return ("consumed", None)
+            if t["k"] == "return":
+                return ("consumed", None) if l == 0 else ("exit", None)
+            return (None, None)
+        for bi, blk in enumerate(blocks):
+            t = blk["t"]
+            if blk.get("cleanup") or t["k"] != "call" or not t.get("dest") or t["dest"]["p"] or not is_res(t["dest"]["l"]) or t.get("target") is None:
+                continue
+            total += 1
+            l0 = t["dest"]["l"]
+            if l0 == 0:
+                continue
+            # search from the call's continuation
+            bad = None
+            seen = set()
+            work = [(t["target"], l0, -1)]
+            while work and bad is None:
+                b, l, after = work.pop()
+                if (b, l, after) in seen or blocks[b].get("cleanup"):
+                    continue
+                seen.add((b, l, after))
+                kind, info = uses_of(b, l, after)
+                if kind == "consumed":
+                    continue
+                if kind == "moved":
+                    work.append((b, info[0], info[1]))
+                    continue
+                if kind in ("redefined", "exit"):
+                    bad = (kind, blocks[b]["t"].get("ln"))
+                    break
+                for s_ in succs(blocks[b]["t"]):
+                    work.append((s_, l, -1))
+            callee = (t["callee"].get("resolved") or t["callee"].get("def") or "?").split("::")[-1]
+            if bad is not None:
+                chk.bad("%s: %s" % (fn.split("::")[-1], callee), "%s: the fmt::Result of the call of %s (line %s) can reach %s without having been checked (`?`), matched or returned: an error is dropped" % (
+                    fn, callee, t.get("ln"), "its next overwrite" if bad[0] == "redefined" else "the end of the function"), loc=P.loc(fn))
+            else:
+                chk.ok("%s: %s" % (fn.split("::")[-1], callee))
+    if total < 40:
+        raise AnchorLost("only %d fmt::Result calls found in the writers" % total)
+
+
+_LF = {}
+
+
+def _logged_fold(P, fn, args, names):
+    """fold fn(args) with the output calls named in `names` logged (and treated as succeeding): returns the list of (callee, shown args without the writer)"""
+    from finmap import Folder, show
+    key = (id(P), names)
+    if key not in _LF:
+        log = []
+        OKU = ("agg", "adt", "std::result::Result", "Ok", (("agg", "tuple", None, None, (), None),), 0)
+
+        def eff(name, a):
+            log.append((name.split("::")[-1], tuple(show(x) for x in a[1:])))
+            return OKU
+        _LF[key] = (Folder(P, max_depth=8, effects=eff, effects_names=lambda n: any(n.endswith(x) for x in names)), log)
+    fo, log = _LF[key]
+    del log[:]
+    fo._memo.clear()
+    fo._eff_done.clear()
+    fo.call(fn, args)
+    return list(log)
+
+
+def _chars(log):
+    out = ""
+    for n, a in log:
+        if n == "write_char":
+            c = a[0]
+            while isinstance(c, tuple) and c:        # a `char` constant is decoded as (('char', code),)
+                c = c[1] if len(c) == 2 and c[0] == "char" else c[0]
+            out += chr(c) if isinstance(c, int) else str(a[0])
+        elif n == "write_hundreds":
+            out += "%02d" % a[0]
+        else:
+            out += "<%s%s>" % (n, a)
+    return out
+
+
+def r_offset_writer_map(chk, P, tier):
+    """OffsetFormat::format (behind %z, %:z, %::z, %:::z, %#z, RFC 3339 and RFC 2822 offsets) as a value map: folded with its output calls logged for all 108 formats
+    (precision x colons x padding x allow_zulu) and offsets on both sides of zero, half a minute, a minute, an hour, ten hours and the range end; the characters written equal
+    the documented rendering (sign of the whole offset, seconds rounded to the nearest minute for the minute precisions, optional parts dropped when zero, `Z` only for zero)"""
+    from finmap import Unknown
+    chk.rule("MAP.offset_writer", "OffsetFormat::format folded over a one-factor-at-a-time design of its 108 formats and 35 boundary offsets writes the documented text (sign of the whole offset, rounding, optional parts, padding, colons, Z)", floor=150)
+    fn = "format::formatting::<impl format::OffsetFormat>::format"
+    OF = "format::OffsetFormat"
+    precs = [v["name"] for v in P.adts["format::OffsetPrecision"]["variants"]]
+    cols = [v["name"] for v in P.adts["format::Colons"]["variants"]]
+    pads = [v["name"] for v in P.adts["format::Pad"]["variants"]]
+
+    def en(adt, names, i):
+        return ("agg", "adt", adt, names[i], (), i)
+    offs = sorted({s_ * x for x in (0, 1, 29, 30, 31, 59, 60, 61, 1799, 1800, 3569, 3570, 3599, 3600, 3601, 35999, 36000, 86399) for s_ in (1, -1)})
+    bad = {}
+    n = 0
+    few = (0, 1, -1, -1800, 35999, -36000)
+    design = []
+    bp, bc, bd = precs.index("Minutes"), cols.index("Colon"), pads.index("Zero")
+    for pi in range(len(precs)):
+        design.append((pi, bc, bd, False, offs if tier == "thorough" or pi in (bp, precs.index("OptionalMinutesAndSeconds"), precs.index("Hours")) else offs[::3] + [-1, 1, -59, 59]))
+    for ci in range(len(cols)):
+        for pi in (bp, precs.index("Seconds")):
+            design.append((pi, ci, bd, False, few))
+    for di in range(len(pads)):
+        design.append((bp, bc, di, False, few))
+        design.append((precs.index("Hours"), cols.index("None"), di, True, few))
+    for pi in range(len(precs)):
+        design.append((pi, bc, bd, True, (0, 1, -1)))
+    for (pi, ci, di, zulu, offsets) in design:
+        pn, cn, dn = precs[pi], cols[ci], pads[di]
+        if True:
+            if True:
+                if True:
+                    f = ("ref", ("agg", "adt", OF, "OffsetFormat", (en("format::OffsetPrecision", precs, pi), en("format::Colons", cols, ci), ("const", zulu), en("format::Pad", pads, di)), 0))
+                    for off in offsets:
+                        a = abs(off)
+                        if zulu and off == 0:
+                            want = "Z"
+                        else:
+                            sign = "-" if off < 0 else "+"
+                            secs = 0
+                            if pn == "Hours":
+                                h, mins, prec = a // 3600, 0, "H"
+                            elif pn in ("Minutes", "OptionalMinutes"):
+                                mt = (a + 30) // 60
+                                h, mins = mt // 60, mt % 60
+                                prec = "H" if pn == "OptionalMinutes" and mins == 0 else "M"
+                            else:
+                                mt = a // 60
+                                h, mins, secs = mt // 60, mt % 60, a % 60
+                                if pn != "Seconds" and secs == 0:
+                                    prec = "H" if pn == "OptionalMinutesAndSeconds" and mins == 0 else "M"
+                                else:
+                                    prec = "S"
+                            colon = ":" if cn == "Colon" else ""
+                            if h < 10:
+                                want = (" " if dn == "Space" else "") + sign + ("0" if dn == "Zero" else "") + str(h)
+                            else:
+                                want = sign + "%02d" % h
+                            if prec in ("M", "S"):
+                                want += colon + "%02d" % mins
+                            if prec == "S":
+                                want += colon + "%02d" % secs
+                        try:
+                            got = _chars(_logged_fold(P, fn, [f, ("ref", ("const", "w")), ("agg", "adt", "offset::fixed::FixedOffset", "FixedOffset", (("const", off),), 0)],
+                                                      ("::write_char", "formatting::write_hundreds")))
+                        except Unknown as e:
+                            got = "unknown: %s" % e
+                        if got == want:
+                            n += 1
+                        else:
+                            bad.setdefault("%s, %s offset" % (pn, "negative" if off < 0 else ("zero" if off == 0 else "positive")), ((pn, cn, dn, zulu, off), got, want))
+    for _ in range(n):
+        chk.ok("value")
+    for cls, (a, got, want) in sorted(bad.items()):
+        chk.bad(cls, "OffsetFormat%s writes `%s`, documented rendering `%s`" % (a, got, want), loc=P.loc(fn))
+
+
+def r_two_digit_writer_map(chk, P, tier):
+    """write_two / write_one (the day, month, hour, minute, second and two-digit-year fields of a format string) as complete finite maps: value 0..=99 x the three paddings"""
+    from finmap import Unknown
+    chk.rule("MAP.two_digit_writer", "write_two(v, pad) for v in 0..=99 and every padding writes v with zero / space / no padding; write_one writes the digit", floor=300)
+    base = "format::formatting::DelayedFormat::<I>::format_numeric::"
+    pads = [v["name"] for v in P.adts["format::Pad"]["variants"]]
+    bad = None
+    for di, dn in enumerate(pads):
+        for v in range(100):
+            want = ("%02d" % v) if dn == "Zero" else (("%2d" % v) if dn == "Space" else str(v))
+            try:
+                got = _chars(_logged_fold(P, base + "write_two", [("ref", ("const", "w")), ("const", v), ("agg", "adt", "format::Pad", dn, (), di)], ("::write_char",)))
+            except Unknown as e:
+                got = "unknown: %s" % e
+            if got == want:
+                chk.ok("value")
+            elif bad is None:
+                bad = ((v, dn), got, want)
+    for v in range(10):
+        try:
+            got = _chars(_logged_fold(P, base + "write_one", [("ref", ("const", "w")), ("const", v)], ("::write_char",)))
+        except Unknown as e:
+            got = "unknown: %s" % e
+        if got == str(v):
+            chk.ok("value")
+        elif bad is None:
+            bad = ((v, "write_one"), got, str(v))
+    chk.expect(bad is None, "digits", "write_two%s writes `%s`, expected `%s`" % (bad or ((), "", "")), loc=P.loc(base + "write_two"))
